@@ -156,7 +156,12 @@ fn counting_case(ctx: &Ctx, rep: &mut Report, case: u64, g: &mut Sm64) {
     rep.distinct(("counting", n_chains, n_collect, n_discard, profile, long));
     let mut s = PSampler { chains };
     hook::proto_enable(8);
+    // injected delays after protocol events (between the protocol's own synchronisation points)
+    let jitter_us = *g.choose(&[0u64, 0, 300, 3000]);
+    hook::proto_jitter(g.next_u64(), jitter_us);
+    rep.count(&format!("injected_delay_max_us[{jitter_us}]"));
     let r = guard(|| s.run_progress(n_collect, n_discard).map_err(|e| format!("{e}")));
+    hook::proto_jitter(1, 0);
     let events = hook::proto_take();
     rep.eval();
     let (arr, stats) = match r {
@@ -255,6 +260,7 @@ fn mh_gibbs_case(ctx: &Ctx, rep: &mut Report, case: u64, g: &mut Sm64) {
         ($mk:expr, $sig:expr) => {{
             let sig: &str = $sig;
             hook::proto_enable(8);
+            hook::proto_jitter(seed, if seed % 3 == 0 { 1500 } else { 0 });
             let r = guard(|| {
                 let mut a = $mk;
                 let mut b = $mk;
@@ -263,6 +269,7 @@ fn mh_gibbs_case(ctx: &Ctx, rep: &mut Report, case: u64, g: &mut Sm64) {
                 let want = RunStats::from(prog.view());
                 (arr_bits(&plain), arr_bits(&prog), stats, want)
             });
+            hook::proto_jitter(1, 0);
             let events = hook::proto_take();
             rep.evals(2);
             match r {
